@@ -2,7 +2,7 @@
    printed by the audit step of bin/check (Print Assumptions per theorem). *)
 From Coq Require Import ZArith Bool List.
 From SV Require Import Common.GoInt C16.Model C16.Spec C16.ProofsBits C16.Proofs
-  C16.ProofsRoundtrip C16.ProofsSearch C16.ProofsCompose.
+  C16.ProofsRoundtrip C16.ProofsSearch C16.ProofsCompose C16.Stack C16.ProofsStack C16.Emit C16.ProofsEmit.
 Import ListNotations.
 Open Scope Z_scope.
 
@@ -118,10 +118,85 @@ Example ex_roundtrip :
 Proof. vm_compute. reflexivity. Qed.
 
 Example ex_lookup :
-  position_of_code 1 1 (firstn 5 ex_insns) 39 = Ok (3, 5) /\
-  position_of_code 1 1 (firstn 5 ex_insns) 40 = Ok (100003, 10001) /\
-  position_of_code 1 1 (firstn 5 ex_insns) 5000 = Ok (7, 2).
-Proof. vm_compute. repeat split. Qed.
+  map (fun pc => position_of_code 1 1 [mkrow 0 3 5; mkrow 2 0 0; mkrow 40 1003 10001; mkrow 41 7 2; mkrow 41 7 2] pc)
+      [39; 40; 5000] = [Ok (3, 5); Ok (1003, 10001); Ok (7, 2)].
+Proof. vm_compute. reflexivity. Qed.
 
 Example ex_rounds : Z.of_nat (rounds (start 1 1) (mkrow 40 100003 10001)) = 6667.
 Proof. vm_compute. reflexivity. Qed.
+
+(* ---- the call stack attached to an error (eval.go Call / evalError, interp.go fr.pc) *)
+
+(* callstack_shape.  For every history of the event machine of Stack.v that
+   consists of any number of calls that ran to completion, then a chain of
+   nested calls (each frame executing any instructions and any complete nested
+   calls -- Starlark or built-in -- before its pending call) ending in a failing
+   operation, and then the unwinding of all frames: the host receives an
+   EvalError whose CallStack is exactly the list of the active calls, outermost
+   first, each with the pc of its pending call, the innermost with the pc of the
+   failing operation.  Any depth, any history. *)
+Theorem callstack_shape :
+  forall pre tr cs,
+    completed pre -> chain tr cs ->
+    run init (pre ++ tr ++ repeat EvUnwind (length cs)) =
+    Some (mkstate [] (Finished (EEval cs))).
+Proof. exact callstack_shape_lemma. Qed.
+
+(* The error is wrapped once: at every intermediate level of the unwinding the
+   propagating error already carries the full stack and is never re-wrapped
+   with a shorter one. *)
+Theorem error_wrapped_once :
+  forall pre tr cs k,
+    completed pre -> chain tr cs -> (0 < k < length cs)%nat ->
+    exists s, run init (pre ++ tr ++ repeat EvUnwind k) = Some (mkstate s (Failing (EEval cs))) /\
+              length s = (length cs - k)%nat.
+Proof. exact wrapped_once_lemma. Qed.
+
+(* What the frames report: for every assignment of compiled code to callables
+   (None = built-in), each frame (c, pc) of the CallStack reports the position
+   of the last positioned instruction of c's code at or before pc. *)
+Theorem reported_positions :
+  forall code cs,
+    (forall c fc, code c = Some fc -> fcode_ok fc) ->
+    map (report code) cs = map (report_spec code) cs.
+Proof. exact report_spec_lemma. Qed.
+
+(* a concrete history: one completed call, then toplevel(0) -> f(1) -> builtin(2) -> g(3) fails at pc 9 *)
+Definition ex_pre : list event := [EvCall 7%nat; EvStep 0; EvStep 3; EvReturn].
+Definition ex_chain : list event :=
+  [EvCall 0%nat; EvStep 0; EvStep 4; EvCall 5%nat; EvStep 0; EvReturn; EvStep 8;
+   EvCall 1%nat; EvStep 0; EvStep 2;
+   EvCall 2%nat;
+   EvCall 3%nat; EvStep 0; EvStep 9; EvFail].
+Definition ex_cs : list cframe := [(0%nat, 8); (1%nat, 2); (2%nat, 0); (3%nat, 9)].
+
+Example ex_completed : completed ex_pre.
+Proof.
+  apply (completed_call 7%nat [EvStep 0; EvStep 3] 3 []); [repeat constructor|constructor].
+Qed.
+
+Example ex_chain_ok : chain ex_chain ex_cs.
+Proof.
+  unfold ex_chain, ex_cs.
+  apply (chain_call 0%nat [EvStep 0; EvStep 4; EvCall 5%nat; EvStep 0; EvReturn; EvStep 8] 8).
+  { apply body_step, body_step. apply (body_call 4 5%nat [EvStep 0] 0 [EvStep 8] 8); repeat constructor. }
+  apply (chain_call 1%nat [EvStep 0; EvStep 2] 2); [repeat constructor|].
+  apply (chain_call 2%nat [] 0); [constructor|].
+  apply (chain_fail 3%nat [EvStep 0; EvStep 9] 9). repeat constructor.
+Qed.
+
+Example ex_run :
+  run init (ex_pre ++ ex_chain ++ repeat EvUnwind 4) = Some (mkstate [] (Finished (EEval ex_cs))).
+Proof. vm_compute. reflexivity. Qed.
+
+(* ---- which instruction carries the position (setPos / emit), slice expressions *)
+
+(* For every slice expression x[lo:hi:step] (any operands, each compiling to any
+   non-empty instruction sequence with its own positions, any of lo/hi/step
+   absent) the SLICE instruction emitted by the repaired compiler carries the
+   position of the '[' token.  (History.v: before /repo commit 103924d it carried
+   none, for every slice expression.) *)
+Theorem slice_carries_position :
+  forall lbrack x lo hi st f,
+    last_insn (compile_slice lbrack x lo hi st f) = Some (mkeinsn OSlice (Some lbrack)).
+Proof. exact slice_carries_position_lemma. Qed.
